@@ -41,7 +41,7 @@ ANCHORS = ['oslo_policy.policy:Enforcer.load_rules', 'oslo_policy.policy:Enforce
            'oslo_policy.policy:Enforcer.set_rules', 'oslo_policy.policy:Enforcer.enforce']
 REQUIRED_ANCHORS = ['oslo_policy.policy:Enforcer.enforce', 'oslo_policy.policy:Enforcer.load_rules']
 SAMPLES_P34 = {'quick': 500, 'thorough': 12000}
-P4_TARGETED = ('dir_file_added', 'dir_edit')
+P4_TARGETED = ('dir_file_added', 'dir_edit', 'dir_file_two_rules')
 
 SCEN = {
     'main_edit_dir_override': dict(
@@ -84,13 +84,17 @@ SCEN = {
     'dir_file_added': dict(
         old={'policy.yaml': {'y': 'role:m', 'a': 'role:x'}, 'pd/1.yaml': {'a': 'role:x'}}, new={'pd/2.yaml': {'y': 'role:o', 'n': 'role:n'}},
         defaults=[['c', 'role:z', None]], probes=[['y', ['o']], ['y', ['m']], ['n', ['n']], ['a', ['x']], ['c', ['z']]]),
+    'dir_file_two_rules': dict(
+        old={'policy.yaml': {'x': 'rule:p and rule:q', 'p': 'role:m', 'q': 'role:m'}, 'pd/1.yaml': {'p': '!', 'q': '@'}},
+        new={'pd/1.yaml': {'q': '!', 'p': '@'}},
+        defaults=[['c', 'role:z', None]], probes=[['x', ['m']], ['p', ['m']], ['q', []], ['c', ['z']]]),
     'no_main': dict(
         old={'pd/1.yaml': {'a': '@'}}, new={'pd/1.yaml': {'a': '@', 'b': '!'}},
         defaults=[['c', '@', None]], probes=[['a', []], ['c', []]]),
 }
 
 LOG = []            # (thread ident, store id, key, signature)   - reads
-MUT = []            # (store id, op, detail)                     - in-place mutations
+MUT = []            # (store id, op, detail, thread ident)       - in-place mutations
 _wrapped = {}
 
 
@@ -104,37 +108,43 @@ def install_store_log():
     if _wrapped:
         return
 
+    # every wrapper records and then calls what the CLASS ITSELF defines for that operation (a tree may override e.g.
+    # Rules.update), falling back to dict's implementation - a monitor must never replace the behaviour it observes
+    def orig(name):
+        return _wrapped.get(name) or getattr(dict, name)
+
     def getitem(self, key):
         LOG.append((threading.get_ident(), id(self), key, sig(self)))
-        return dict.__getitem__(self, key)        # dict honours __missing__ for subclasses
+        return orig('__getitem__')(self, key)        # dict honours __missing__ for subclasses
 
     def rbool(self):
         LOG.append((threading.get_ident(), id(self), '<bool>', sig(self)))
-        return dict.__len__(self) > 0
+        own = _wrapped.get('__bool__')
+        return own(self) if own else dict.__len__(self) > 0
 
     def setitem(self, key, value):
-        MUT.append((id(self), 'set', key))
-        dict.__setitem__(self, key, value)
+        MUT.append((id(self), 'set', key, threading.get_ident()))
+        orig('__setitem__')(self, key, value)
 
     def update(self, *a, **kw):
-        MUT.append((id(self), 'update', None))
-        dict.update(self, *a, **kw)
+        MUT.append((id(self), 'update', None, threading.get_ident()))
+        orig('update')(self, *a, **kw)
 
     def clear(self):
-        MUT.append((id(self), 'shrink', 'clear'))
-        dict.clear(self)
+        MUT.append((id(self), 'shrink', 'clear', threading.get_ident()))
+        orig('clear')(self)
 
     def delitem(self, key):
-        MUT.append((id(self), 'shrink', key))
-        dict.__delitem__(self, key)
+        MUT.append((id(self), 'shrink', key, threading.get_ident()))
+        orig('__delitem__')(self, key)
 
     def pop(self, *a):
-        MUT.append((id(self), 'shrink', a[0] if a else None))
-        return dict.pop(self, *a)
+        MUT.append((id(self), 'shrink', a[0] if a else None, threading.get_ident()))
+        return orig('pop')(self, *a)
 
     def popitem(self):
-        MUT.append((id(self), 'shrink', 'popitem'))
-        return dict.popitem(self)
+        MUT.append((id(self), 'shrink', 'popitem', threading.get_ident()))
+        return orig('popitem')(self)
     for name, fn in (('__getitem__', getitem), ('__bool__', rbool), ('__setitem__', setitem), ('update', update),
                      ('clear', clear), ('__delitem__', delitem), ('pop', pop), ('popitem', popitem)):
         _wrapped[name] = R.__dict__.get(name)
@@ -202,14 +212,16 @@ def layer_defs(sc):
     return defs
 
 
-def rebuild_name_sets(sc):
-    """Name sets of every store state the documented rebuild passes through, for the old and for the new files: the main
-    file (the empty store when there is none), then each policy.d file in sorted order, then - possibly interleaved with the
-    directory files when a second thread runs its own load step on the half-built store - the registered defaults that are
-    still absent, in registration order.  A store that a concurrent decision reads mid-reload is explained by the known
-    in-place rebuild only if its names form one of these sets."""
-    out = set()
+def rebuild_states(sc, lenient):
+    """Every store state the documented rebuild passes through, for the old and for the new files, as (fixed, open):
+    `fixed` = {name: printed definition} given by the main file (nothing when there is none) and the first j policy.d files in
+    sorted order, later files overriding earlier ones; `open` = the registered-default names added so far, whose definition may
+    be any the deprecation handling legitimately produces.  Strict reading: defaults are added only after ALL directory
+    files, in registration order, and only for names no file defines.  Lenient reading (the deciding thread itself ran a load
+    step on the half-built store and wrote into it): defaults may also sit on a store that lacks later directory files."""
+    P = env.printed
     dnames = [n for n, cs, dep in sc['defaults']]
+    out = []
     for ver in ('old', 'new'):
         files_now = dict(sc['old'])
         if ver == 'new':
@@ -218,15 +230,30 @@ def rebuild_name_sets(sc):
                     files_now.pop(f, None)
                 else:
                     files_now[f] = c
-        main = set(files_now.get('policy.yaml') or {})
-        dirfiles = [set(files_now[f] or {}) for f in sorted(files_now) if f != 'policy.yaml']
-        for j in range(len(dirfiles) + 1):
-            base = set(main)
-            for d in dirfiles[:j]:
-                base |= d
-            for m in range(len(dnames) + 1):
-                out.add(frozenset(base | set(dnames[:m])))
+        layers = [files_now.get('policy.yaml') or {}] + [files_now[f] or {} for f in sorted(files_now) if f != 'policy.yaml']
+        for j in range(len(layers)):
+            fixed = {}
+            for layer in layers[:j + 1]:
+                for k, v in layer.items():
+                    fixed[k] = P(v)
+            last = j == len(layers) - 1
+            absent = [n for n in dnames if n not in fixed]
+            out.append((fixed, frozenset()))
+            if last or lenient:
+                for m in range(1, len(absent) + 1):
+                    out.append((fixed, frozenset(absent[:m])))
     return out
+
+
+def outside_rebuild_sequence(sc, sg, defs, lenient):
+    """Is the store signature `sg` (tuple of (name, printed)) none of the states of rebuild_states()?"""
+    got = dict(sg)
+    for fixed, opened in rebuild_states(sc, lenient):
+        if set(got) != set(fixed) | set(opened):
+            continue
+        if all(got[k] == v for k, v in fixed.items()) and all((k, got[k]) in defs for k in opened):
+            return False
+    return True
 
 
 def pkey(p):
@@ -260,7 +287,7 @@ def execute(sc, pX, pY, plan, trace=False, preload=True):
         r = sched.Run({'X': mk('X', pX), 'Y': mk('Y', pY)}, plan, lambda: apply_new(sc, tree), trace_points=trace)
         res = r.run()
         log = [(tids.get(t), i, k, sg) for t, i, k, sg in LOG]
-        mut = list(MUT)
+        mut = [(i, op, d, tids.get(t)) for i, op, d, t in MUT]
         settled = {pkey(p): dec(enf, p) for p in probes}
         sig_settled = sig(enf.rules)
         fresh = policy.Enforcer(tree.conf(**sc.get('conf', {})))
@@ -301,14 +328,16 @@ def classify(who, p, ex, defs, sc=None):
         foreign = [e for _, sg in partial for e in sg if e not in defs]
         if foreign:
             return 'foreign-definition-in-store'
-        shrunk = {i for i, op, _ in ex['mut'] if op == 'shrink'}
+        shrunk = {i for i, op, _, _ in ex['mut'] if op == 'shrink'}
         if any(i in shrunk for i, _ in partial):
             return 'store-shrinks-in-place'
         if sc is not None:
-            legit = rebuild_name_sets(sc)
-            odd = [sg for _, sg in partial if frozenset(k for k, _ in sg) not in legit]
+            # did the deciding thread itself write into a store (its own load step adding registered defaults)?
+            wrote = {i for i, op, _, t in ex['mut'] if op in ('set', 'update') and t == who}
+            odd = [sg for i, sg in partial if outside_rebuild_sequence(sc, sg, defs, lenient=i in wrote)]
             if odd:
-                # e.g. an EMPTY store although a main policy file exists, or directory rules without the main file's
+                # e.g. an EMPTY store although a main policy file exists, half of a directory file applied, registered
+                # defaults on a store that still lacks the directory files although nobody ran a load step on it
                 return 'store-state-outside-rebuild-sequence'
         return 'partial-rebuild-view'
     if ex['sig_old'] in sigs and ex['sig_new'] in sigs and ex['sig_old'] != ex['sig_new']:
